@@ -50,6 +50,7 @@
 #include <QTcpServer>
 #include <QSslSocket>
 #include <QTcpSocket>
+#include <QXmlStreamReader>
 #include <QXmlStreamWriter>
 #include <algorithm>
 #include <array>
@@ -59,6 +60,19 @@
 
 #define QL(s) QStringLiteral(s)
 using namespace vh;
+
+// replays may contain the XML really written, i.e. raw line breaks / tabs from generated values: keep the line protocol intact
+static std::string oneLine(const std::string &r)
+{
+    std::string o; o.reserve(r.size());
+    for (unsigned char ch : r) {
+        if (ch == '\n') o += "\\n"; else if (ch == '\r') o += "\\r"; else if (ch == '\t') o += "\\t"; else o += char(ch);
+    }
+    if (o.size() > 6000) o = o.substr(0, 6000) + "...";
+    return o;
+}
+static void failLine(const std::string &key, const std::string &replay) { vh::oracleFail(key, oneLine(replay)); }
+#define oracleFail failLine
 
 // ----------------------------------------------------------------------------------------------- info sets
 struct Id { QString cat, type, lang, name; };
@@ -158,6 +172,7 @@ struct Wire {
     std::vector<std::array<std::string, 4>> ids;   // category, type, xml:lang, name
     std::vector<std::string> feats;
     std::vector<WForm> forms;
+    std::vector<WForm> rawForms;   // only for classifying a mismatch: the form values before a conforming reader normalises their line ends
     bool operator==(const Wire &o) const
     {
         if (ids != o.ids || feats != o.feats || forms.size() != o.forms.size()) return false;
@@ -172,7 +187,7 @@ struct Wire {
     }
 };
 
-struct Quirks { bool utf16 = false, boolText = false, emptySep = false, emptyDropped = false; };
+struct Quirks { bool utf16 = false, boolText = false, emptySep = false, emptyDropped = false, crKept = false; };
 
 // RFC 4790 i;octet: octet by octet, unsigned; a proper prefix sorts first
 static bool octetLess(const std::string &a, const std::string &b)
@@ -215,7 +230,7 @@ static bool xepString(const Wire &w, Quirks q, std::string &S)
     for (auto &f : feats) S += f + "<";
     // 6. forms sorted by FORM_TYPE; a form without FORM_TYPE is ignored (§5.4 item 6)
     std::vector<std::pair<std::string, const WForm *>> forms;
-    for (auto &f : w.forms) {
+    for (auto &f : (q.crKept && !w.rawForms.empty() ? w.rawForms : w.forms)) {
         const WField *ft = nullptr; int n = 0;
         std::set<std::string> vars;
         for (auto &fl : f.fields) {
@@ -261,8 +276,15 @@ static const char *K_UTF16 = "C20:utf16-vs-octet-order";
 static const char *K_BOOL = "C20:boolean-field-hashed-as-true-false";
 static const char *K_EMPTY = "C20:valueless-field-extra-separator";
 static const char *K_EMPTYVAL = "C20:empty-value-not-hashed";
-static const int quirkOrder[] = { 1, 2, 4, 8, 3, 5, 6, 9, 10, 12, 7, 11, 13, 14, 15 };   // single deviations first
-static Quirks quirksOf(int b) { Quirks q; q.utf16 = b & 1; q.boolText = b & 2; q.emptySep = b & 4; q.emptyDropped = b & 8; return q; }
+static const char *K_CR = "C20:cr-in-form-value-read-as-lf";
+static std::vector<int> makeQuirkOrder()   // fewest deviations first
+{
+    std::vector<int> o;
+    for (int pc = 1; pc <= 5; pc++) for (int b = 1; b < 32; b++) if (__builtin_popcount(b) == pc) o.push_back(b);
+    return o;
+}
+static const std::vector<int> quirkOrder = makeQuirkOrder();
+static Quirks quirksOf(int b) { Quirks q; q.utf16 = b & 1; q.boolText = b & 2; q.emptySep = b & 4; q.emptyDropped = b & 8; q.crKept = b & 16; return q; }
 static std::vector<std::string> keysOf(const Quirks &q)
 {
     std::vector<std::string> ks;
@@ -270,6 +292,7 @@ static std::vector<std::string> keysOf(const Quirks &q)
     if (q.boolText) ks.push_back(K_BOOL);
     if (q.emptySep) ks.push_back(K_EMPTY);
     if (q.emptyDropped) ks.push_back(K_EMPTYVAL);
+    if (q.crKept) ks.push_back(K_CR);
     return ks;
 }
 
@@ -284,7 +307,18 @@ static std::vector<std::string> explain(const Wire &w, const std::string &got)
     return {};
 }
 
-// what QXmppDataForm::toXml / QXmppDiscoveryIq::toXml put on the wire, by rule (checked against the real XML below)
+// XML 1.0 2.11: a conforming parser reads CR LF and a lone CR in element text as LF
+static std::string xmlLineEnds(const std::string &t)
+{
+    std::string o;
+    for (size_t k = 0; k < t.size(); k++) {
+        if (t[k] == '\r') { o += '\n'; if (k + 1 < t.size() && t[k + 1] == '\n') k++; } else o += t[k];
+    }
+    return o;
+}
+
+// what QXmppDataForm::toXml / QXmppDiscoveryIq::toXml put on the wire AS A PEER READS IT, by rule (checked against the real XML below):
+// one <value/> per list element, its text the element (line ends normalised by the reader); attributes unchanged
 static Wire wireByRule(const InfoSet &i)
 {
     Wire w;
@@ -299,38 +333,55 @@ static Wire wireByRule(const InfoSet &i)
             else { x.isBool = true; x.values.push_back(f.vals.value(0) == QL("1") ? "1" : "0"); }
             wf.fields.push_back(x);
         }
+        w.rawForms.push_back(wf);
+        for (auto &x : wf.fields) for (auto &v : x.values) v = xmlLineEnds(v);
         w.forms.push_back(wf);
     }
     return w;
 }
 
-// read a disco#info <query/> the way a peer would (QDom only, no qxmpp parsing)
-static Wire wireFromQuery(const QDomElement &query)
+// Read a disco#info result the way a peer would: from the XML text really written, with a conforming XML parser
+// (QXmlStreamReader: keeps whitespace-only text, normalises line ends per XML 1.0 2.11; QDom would drop blank text), no qxmpp parsing.
+// Every <value/> element is one value, its text the value.
+static Wire wireFromXml(const QString &xml)
 {
     Wire w;
-    for (auto c = query.firstChildElement(); !c.isNull(); c = c.nextSiblingElement()) {
-        if (c.tagName() == QL("identity")) {
-            QString lang;
-            auto am = c.attributes();
-            for (int k = 0; k < am.count(); k++) {
-                auto a = am.item(k).toAttr();
-                if (a.name() == QL("xml:lang") || (a.localName() == QL("lang") && a.namespaceURI() == QL("http://www.w3.org/XML/1998/namespace"))) lang = a.value();
+    QXmlStreamReader r(xml);
+    bool inQuery = false, inForm = false;
+    WForm wf; WField fld; bool inField = false;
+    while (!r.atEnd()) {
+        auto t = r.readNext();
+        if (t == QXmlStreamReader::StartElement) {
+            const auto name = r.name(); const auto ns = r.namespaceUri(); const auto a = r.attributes();
+            if (!inQuery) { if (name == QL("query") && ns == QL("http://jabber.org/protocol/disco#info")) inQuery = true; continue; }
+            if (!inForm) {
+                if (name == QL("identity")) {
+                    w.ids.push_back({ a.value(QL("category")).toString().toStdString(), a.value(QL("type")).toString().toStdString(),
+                                      a.value(QL("http://www.w3.org/XML/1998/namespace"), QL("lang")).toString().toStdString(), a.value(QL("name")).toString().toStdString() });
+                } else if (name == QL("feature")) {
+                    w.feats.push_back(a.value(QL("var")).toString().toStdString());
+                } else if (name == QL("x") && ns == QL("jabber:x:data")) { inForm = true; wf = WForm(); }
+                continue;
             }
-            w.ids.push_back({ c.attribute(QL("category")).toStdString(), c.attribute(QL("type")).toStdString(), lang.toStdString(),
-                              c.attribute(QL("name")).toStdString() });
-        } else if (c.tagName() == QL("feature")) {
-            w.feats.push_back(c.attribute(QL("var")).toStdString());
-        } else if (c.tagName() == QL("x") && c.namespaceURI() == QL("jabber:x:data")) {
-            WForm wf;
-            for (auto f = c.firstChildElement(QL("field")); !f.isNull(); f = f.nextSiblingElement(QL("field"))) {
-                WField x; x.var = f.attribute(QL("var")).toStdString(); x.isBool = f.attribute(QL("type")) == QL("boolean");
-                { QString t = f.attribute(QL("type")); x.isSingle = !x.isBool && t != QL("list-multi") && t != QL("jid-multi") && t != QL("text-multi"); }
-                for (auto v = f.firstChildElement(QL("value")); !v.isNull(); v = v.nextSiblingElement(QL("value"))) x.values.push_back(v.text().toStdString());
-                wf.fields.push_back(x);
+            if (!inField) {
+                if (name == QL("field")) {
+                    inField = true; fld = WField();
+                    fld.var = a.value(QL("var")).toString().toStdString();
+                    QString ty = a.value(QL("type")).toString();
+                    fld.isBool = ty == QL("boolean");
+                    fld.isSingle = !fld.isBool && ty != QL("list-multi") && ty != QL("jid-multi") && ty != QL("text-multi");
+                } else r.skipCurrentElement();
+                continue;
             }
-            w.forms.push_back(wf);
+            if (name == QL("value")) fld.values.push_back(r.readElementText(QXmlStreamReader::IncludeChildElements).toStdString());
+            else r.skipCurrentElement();
+        } else if (t == QXmlStreamReader::EndElement) {
+            if (inField && r.name() == QL("field")) { wf.fields.push_back(fld); inField = false; }
+            else if (inForm && !inField && r.name() == QL("x")) { w.forms.push_back(wf); inForm = false; }
+            else if (inQuery && !inForm && r.name() == QL("query")) inQuery = false;
         }
     }
+    if (r.hasError()) { fprintf(stderr, "harness: XML written by the library is not well-formed: %s\n%s\n", qPrintable(r.errorString()), qPrintable(xml)); exit(3); }
     return w;
 }
 static QDomElement domOf(const QString &xml)
@@ -342,7 +393,7 @@ static QDomElement domOf(const QString &xml)
 static Wire wireFromIq(const QXmppDiscoveryIq &iq)
 {
     QString xml; QXmlStreamWriter w(&xml); iq.toXml(&w);
-    return wireFromQuery(domOf(xml).firstChildElement(QL("query")));
+    return wireFromXml(xml);
 }
 
 // ----------------------------------------------------------------------------------------------- generators
@@ -375,12 +426,23 @@ struct Gen {
         for (int k = 0; k < n; k++) s += ch();
         return s;
     }
-    // element text: never whitespace-only (QDom would drop it), no leading/trailing blank
+    // element text (form values, also used for keys): opaque strings, including what a serializer could treat specially
+    bool special = true;
     QString text(int maxLen = 3)
     {
         QString s = str(maxLen);
-        s.replace(QLatin1Char(' '), QLatin1Char('_'));
-        return s;
+        if (!special || rng.below(4)) return s;
+        static const char *sp[] = { "\n", "\r", "\r\n", "\t", " ", "  ", "<", "&", "\"", "'", ">", "]]>", "&amp;", "\xE2\x80\xA8", "\xC2\xA0" };
+        switch (rng.below(8)) {
+        case 0: return s + QString::fromUtf8(sp[rng.below(15)]) + str(2);                 // inside
+        case 1: return QString::fromUtf8(sp[rng.below(15)]) + s;                          // leading
+        case 2: return s + QString::fromUtf8(sp[rng.below(15)]);                          // trailing
+        case 3: { static const char *blank[] = { " ", "\n", "\t", " \n ", "\r\n", "   " }; return QString::fromUtf8(blank[rng.below(6)]); }   // only blanks
+        case 4: return QL("line 1\nline 2") + (rng.coin() ? QL("\n") : QString()) + s;   // several lines
+        case 5: return QString(int(200 + rng.below(1800)), QLatin1Char('x')) + s;          // very long
+        case 6: return s + QL("\n\n") + s;
+        default: return QL(" ") + s + QL(" ");
+        }
     }
     QString token()   // identity category / type / lang: realistic or generated; no '/' unless ambiguous
     {
@@ -733,6 +795,14 @@ static QString xmlAttr(const QString &s)
 
 static QTcpServer *g_server = nullptr;
 
+// observation "ver of the answered info set": the independent hash of the answer as a conforming peer reads it from the wire
+// (not QXmppDiscoveryIq::parse + verificationString: QDom drops blank-only text, which is the reader's doing, not the answer's)
+static std::string wireHash(const QString &xml)
+{
+    std::string v;
+    return xepVer(wireFromXml(xml), Quirks(), v) ? v : std::string("outside-xep-domain");
+}
+
 // capabilities node URIs: ordinary ones and adversarial ones ('#' inside / repeated / at the end, XML-special and non-ASCII characters,
 // nodes that are prefixes / extensions of each other, a bare '#'); `allowEmpty`: the empty node (nothing is advertised then)
 static QString genNode(Rng &rng, Gen &g, bool allowEmpty)
@@ -826,7 +896,8 @@ static void runClientCase(Rng &rng, Gen &g, long long n)
     if (replyXml.isEmpty() || reply.attribute(QL("type")) != QL("result")) { oracleFail("C20:no-result-for-advertised-node", replay); return; }
     QDomElement query = reply.firstChildElement(QL("query"));
     if (query.attribute(QL("node")) != qnode) oracleFail("C20:reply-node-differs", replay); else oraclePass()++;
-    Wire w = wireFromQuery(query);
+    Wire w = wireFromXml(replyXml);
+    if (formHolder.hasForm) w.rawForms = wireByRule(formHolder).rawForms;
     std::string xep;
     if (!xepVer(w, Quirks(), xep)) { oracleFail("C20:reply-outside-xep-domain", replay); return; }
     // THE property: advertised == hash of what is answered
@@ -846,8 +917,7 @@ static void runClientCase(Rng &rng, Gen &g, long long n)
     if (!w.forms.empty()) stat("client_cases_with_form");
 
     // correspondence: model of capabilities()/addProperCapability()/handleIq() from the configuration the API reports
-    QXmppDiscoveryIq parsed; parsed.parse(reply);
-    std::string answered = parsed.verificationString().toBase64().toStdString();
+    std::string answered = wireHash(replyXml);
     auto cfgTail = [&]() {
         std::string op = hexOf(disco->clientCategory()) + " " + hexOf(disco->clientType()) + " " + hexOf(disco->clientName()) +
             " " + encFeats('B', TestClient::baseFeatures());
@@ -871,10 +941,9 @@ static void runClientCase(Rng &rng, Gen &g, long long n)
         QDomElement r2; QString x2 = ask(QString(), r2);
         if (x2.isEmpty() || r2.attribute(QL("type")) != QL("result")) oracleFail("C20:no-result-for-plain-query", replay);
         else {
-            Wire w2 = wireFromQuery(r2.firstChildElement(QL("query")));
+            Wire w2 = wireFromXml(x2);
             if (w2 == w) oraclePass()++; else oracleFail("C20:plain-query-answers-differently", replay);
-            QXmppDiscoveryIq p2; p2.parse(r2);
-            corr(capsOp(QString()), ver.toStdString() + "|" + p2.verificationString().toBase64().toStdString());
+            corr(capsOp(QString()), ver.toStdString() + "|" + wireHash(x2));
         }
     }
     // the advertised node without "#ver": same info set, never an error
@@ -882,10 +951,9 @@ static void runClientCase(Rng &rng, Gen &g, long long n)
         QDomElement r2; QString x2 = ask(advNode, r2);
         if (x2.isEmpty() || r2.attribute(QL("type")) != QL("result")) oracleFail("C20:no-result-for-advertised-node", "plain node " + advNode.toStdString() + " ; " + replay);
         else {
-            Wire w2 = wireFromQuery(r2.firstChildElement(QL("query")));
+            Wire w2 = wireFromXml(x2);
             if (w2 == w) oraclePass()++; else oracleFail("C20:plain-query-answers-differently", replay);
-            QXmppDiscoveryIq p2; p2.parse(r2);
-            corr(capsOp(advNode), ver.toStdString() + "|" + p2.verificationString().toBase64().toStdString());
+            corr(capsOp(advNode), ver.toStdString() + "|" + wireHash(x2));
         }
     }
     // other nodes (foreign; an extension of the own node; a proper prefix of it): correspondence with the prefix rule only
@@ -894,7 +962,7 @@ static void runClientCase(Rng &rng, Gen &g, long long n)
         if (x3.isEmpty()) continue;
         bool err = r3.attribute(QL("type")) == QL("error");
         std::string obs = "not-found";
-        if (!err) { QXmppDiscoveryIq p3; p3.parse(r3); obs = p3.verificationString().toBase64().toStdString(); stat("foreign_node_answered_by_prefix_rule"); }
+        if (!err) { obs = wireHash(x3); stat("foreign_node_answered_by_prefix_rule"); }
         corr(capsOp(other), ver.toStdString() + "|" + obs);
     }
     std::vector<std::pair<std::string, std::string>> pendingQueries;
@@ -953,7 +1021,8 @@ static void runClientCase(Rng &rng, Gen &g, long long n)
         // what the client answers at this moment (query without node), hashed independently
         QDomElement r0; QString x0 = ask(QString(), r0);
         if (x0.isEmpty() || r0.attribute(QL("type")) != QL("result")) { oracleFail("C20:no-result-for-plain-query", rp); return obs; }
-        Wire w0 = wireFromQuery(r0.firstChildElement(QL("query")));
+        Wire w0 = wireFromXml(x0);
+        if (formHolder.hasForm) w0.rawForms = wireByRule(formHolder).rawForms;
         std::string xep0;
         if (!xepVer(w0, Quirks(), xep0)) { oracleFail("C20:reply-outside-xep-domain", rp); return obs; }
         QString curNode = disco->clientCapabilitiesNode();
@@ -978,20 +1047,19 @@ static void runClientCase(Rng &rng, Gen &g, long long n)
             QDomElement r5; QString x5 = ask(pq, r5);
             if (x5.isEmpty() || r5.attribute(QL("type")) != QL("result")) { oracleFail("C20:no-result-for-advertised-node", "query " + pq.toStdString() + " ; " + rp); continue; }
             if (r5.firstChildElement(QL("query")).attribute(QL("node")) != pq) oracleFail("C20:reply-node-differs", rp); else oraclePass()++;
-            Wire w5 = wireFromQuery(r5.firstChildElement(QL("query")));
+            Wire w5 = wireFromXml(x5);
             if (w5 == w0) oraclePass()++; else oracleFail("C20:plain-query-answers-differently", rp);
             { std::set<std::string> fs; std::string dup; for (auto &f : w5.feats) if (!fs.insert(f).second) dup = f;
               if (!dup.empty()) oracleFail("C20:reply-repeats-feature", "repeated: " + dup + " ; " + rp); else oraclePass()++; }
-            QXmppDiscoveryIq p5; p5.parse(r5);
-            pendingQueries.push_back({ "query " + hexOf(pq), p5.verificationString().toBase64().toStdString() });
+            pendingQueries.push_back({ "query " + hexOf(pq), wireHash(x5) });
         }
-        { QXmppDiscoveryIq p0; p0.parse(r0); pendingQueries.push_back({ "query -", p0.verificationString().toBase64().toStdString() }); }
+        pendingQueries.push_back({ "query -", wireHash(x0) });
         // an extension of the own node / a foreign node: correspondence with the prefix rule
         for (const QString &other : { n2 + QL("x#") + v2, QL("urn:other#") + v2 }) {
             QDomElement r6; QString x6 = ask(other, r6);
             if (x6.isEmpty()) continue;
             std::string o = "not-found";
-            if (r6.attribute(QL("type")) != QL("error")) { QXmppDiscoveryIq p6; p6.parse(r6); o = p6.verificationString().toBase64().toStdString(); stat("foreign_node_answered_by_prefix_rule"); }
+            if (r6.attribute(QL("type")) != QL("error")) { o = wireHash(x6); stat("foreign_node_answered_by_prefix_rule"); }
             pendingQueries.push_back({ "query " + hexOf(other), o });
         }
         if (n2.contains(QLatin1Char('#'))) stat("client_presences_node_with_hash_sign");
@@ -1018,7 +1086,7 @@ static void runClientCase(Rng &rng, Gen &g, long long n)
         if (dirty && !lastQnode.isNull()) {
             QDomElement r4; QString x4 = ask(lastQnode, r4);
             if (!x4.isEmpty() && r4.attribute(QL("type")) == QL("result")) {
-                std::string x; Wire w4 = wireFromQuery(r4.firstChildElement(QL("query")));
+                std::string x; Wire w4 = wireFromXml(x4);
                 if (xepVer(w4, Quirks(), x) && x != lastXep) stat("stale_ver_answered_with_new_info_before_any_new_presence");
             }
         }
